@@ -36,6 +36,9 @@ theorem specChunk_named (senv : SEnv) (f : Nat) (n : String) (v : Val) :
       | none => none) := rfl
 theorem specChunk_goPtr (senv : SEnv) (f : Nat) (t : SType) (x : Val) :
     specChunk senv (f + 1) (.goPtr t) (.cons x .nil) = specChunk senv f t x := rfl
+theorem specChunk_chain_cons (senv : SEnv) (f : Nat) (t : SType) (x rest : Val) :
+    specChunk senv (f + 1) (.chainOf t) (.cons x rest) =
+      chainStep (specChunk senv f t x) rest (specChunk senv f (.chainOf t) rest) := rfl
 theorem specFields_cons (senv : SEnv) (f : Nat) (n : String) (t : SType) (rest : SFields) (x vs : Val) :
     specFields senv (f + 1) (.cons n t rest) (.cons x vs) =
       (match specChunk senv f t x, specFields senv f rest vs with
@@ -170,6 +173,20 @@ theorem spec_mono (senv : SEnv) : ∀ f : Nat,
         split at h
         · rw [specChunk_goPtr]; exact ihC _ _ _ h
         · cases h
+      | chainOf t =>
+        cases v <;> try (simp [specChunk] at h; done)
+        rename_i x rest
+        rw [specChunk_chain_cons] at h ⊢
+        cases hx : specChunk senv f t x with
+        | none => simp [hx, chainStep] at h
+        | some c0 =>
+          rw [ihC _ _ _ hx]
+          simp only [hx, chainStep] at h ⊢
+          split at h
+          · rename_i hr; rw [if_pos hr]; exact h
+          · rename_i hr; rw [if_neg hr]
+            obtain ⟨a, ha, hc⟩ := map_some_inv h
+            rw [ihC _ _ _ ha]; simpa using hc
       | hashmapE n sk st =>
         simp only [specChunk] at h ⊢
         exact specDict_mono n _ _ _ _ v c (fun x c hx => ihC _ _ _ hx) (fun x c hx => ihC _ _ _ hx) h
@@ -1128,6 +1145,45 @@ theorem mapM_to_opt {α β} (f : α → Outcome β) (g : α → Option β) : ∀
       (fun a' ha' b' hb' => hon a' (List.mem_cons_of_mem _ ha') b' (List.mem_cons_of_mem _ hb')) hbs
     simp only [mapMOpt, h1, h2]
 
+/-- a reference chain (wallet.W5ExtendedActions) -/
+theorem agree_chain {f k : Nat} (h : SInv env senv f) {e S v b b'}
+    (ha : agreeb env senv (k + 1) (.chain e) S = true)
+    (hd : inDom env (f + 1) (.chain e) v = true) (he : encode env (f + 1) (.chain e) v b = .ok b') :
+    SpecOK senv S v b b' := by
+  have ha0 := ha
+  cases S <;> simp only [agreeb, Bool.false_eq_true] at ha
+  rename_i s
+  cases v <;> try (simp [inDom] at hd; done)
+  rename_i x rest
+  simp only [inDom, Bool.and_eq_true, Bool.or_eq_true] at hd
+  obtain ⟨hdx, hdr⟩ := hd
+  simp only [encode] at he
+  obtain ⟨b1, hb1, he⟩ := bind_ok_inv he
+  obtain ⟨g1, c1, hc1, hbb1⟩ := h.enc k e s x b b1 ha hdx hb1
+  by_cases hr : rest = .nil
+  · subst hr
+    simp only at he
+    cases he
+    refine ⟨g1 + 1, c1, ?_, hbb1⟩
+    rw [specChunk_chain_cons, hc1]; rfl
+  · have hdr' : inDom env f (.chain e) rest = true := by
+      rcases hdr with h1 | h1
+      · cases rest <;> first | exact absurd rfl hr | simp [Val.isNil] at h1
+      · exact h1
+    have he' : (encode env f (.chain e) rest Builder.empty >>= fun child => b1.addRef child.toCell) = .ok b' := by
+      cases rest <;> first | exact he | exact absurd rfl hr
+    obtain ⟨child, hch, he2⟩ := bind_ok_inv he'
+    have e2 := Builder.addRef_ok he2
+    obtain ⟨g2, c2, hc2, hbb2⟩ := h.enc (k + 1) (.chain e) (.chainOf s) rest _ child ha0 hdr' hch
+    refine ⟨max g1 g2 + 1, (c1.1, c1.2 ++ [Cell.mk 0 0 c2.1 c2.2]), ?_, ?_⟩
+    · have h1 := specChunk_mono (Nat.le_max_left g1 g2) hc1
+      have h2 := specChunk_mono (Nat.le_max_right g1 g2) hc2
+      have hn : rest.isNil = false := by cases rest <;> first | exact absurd rfl hr | rfl
+      rw [specChunk_chain_cons, h1, h2]
+      simp only [chainStep, hn, Bool.false_eq_true, ↓reduceIte, Option.map_some]
+    · rw [e2, hbb1, hbb2, Builder.app_app]
+      simp [Builder.empty, Builder.app, Builder.toCell]
+
 /-- a dictionary: the keys and the values are written as the schema says, and the tree around them is C05's -/
 theorem agree_dictE {f k : Nat} (h : SInv env senv f) {kt t S v b b'}
     (ha : agreeb env senv (k + 1) (.dictE kt t) S = true)
@@ -1234,6 +1290,7 @@ theorem SInv.succ {f : Nat} (h : SInv env senv f) : SInv env senv (f + 1) := by
     | prim p => exact agree_prim (by simpa [agreeb] using ha) hd he
     | dictE kt t => exact agree_dictE h ha hd he
     | dict kt t => simp [agreeb] at ha
+    | chain e => exact agree_chain h ha hd he
     | cell => simp [agreeb] at ha
     | magic t => simp [agreeb] at ha
     | vmStack e => simp [agreeb] at ha
